@@ -389,52 +389,10 @@ func (c *Core) fetchACLTokenEntryAndEntity(ctx context.Context, req *logical.Req
 	return acl, te, entity, identityPolicies, nil
 }
 
-func (c *Core) CheckToken(ctx context.Context, req *logical.Request, unauth bool) (*logical.Auth, *policy.ACL, *logical.TokenEntry, *identity.Entity, error) {
-	defer metrics.MeasureSince([]string{"core", "check_token"}, time.Now())
-
-	var acl *policy.ACL
-	var te *logical.TokenEntry
-	var entity *identity.Entity
-	var identityPolicies map[string][]string
-
-	// Even if unauth, if a token is provided, there's little reason not to
-	// gather as much info as possible for the audit log and to e.g. control
-	// trace mode for EGPs.
-	if !unauth || (unauth && (req.ClientToken != "" || req.HasInlineAuth)) {
-		var err error
-		acl, te, entity, identityPolicies, err = c.fetchACLTokenEntryAndEntity(ctx, req)
-		// In the unauth case we don't want to fail the command, since it's
-		// unauth, we just have no information to attach to the request, so
-		// ignore errors...this was best-effort anyways
-		if err != nil && !unauth {
-			if c.standby.Load() {
-				return nil, acl, te, entity, logical.ErrPerfStandbyPleaseForward
-			}
-			return nil, acl, te, entity, err
-		}
-	}
-
-	if entity != nil && entity.Disabled {
-		c.logger.Warn("permission denied as the entity on the token is disabled")
-		return nil, acl, te, entity, logical.ErrPermissionDenied
-	}
-	if te != nil && te.EntityID != "" && entity == nil {
-		if c.standby.Load() {
-			return nil, acl, te, entity, logical.ErrPerfStandbyPleaseForward
-		}
-		c.logger.Warn("permission denied as the entity on the token is invalid")
-		return nil, acl, te, entity, logical.ErrPermissionDenied
-	}
-
-	// Check if this is a root protected path
-	rootPath := c.router.RootPath(ctx, req.Path)
-
-	if rootPath && unauth {
-		return nil, nil, nil, nil, errors.New("cannot access root path in unauthenticated request")
-	}
-
-	// At this point we won't be forwarding a raw request; we should delete
-	// authorization headers as appropriate
+// stripAuthHeaders removes the credentials the request was authenticated with
+// from its headers, so that they reach neither a backend nor, through an
+// audited header, the audit log.
+func stripAuthHeaders(req *logical.Request) {
 	switch req.ClientTokenSource {
 	case logical.ClientTokenFromVaultHeader:
 		delete(req.Headers, consts.AuthHeaderName)
@@ -458,6 +416,60 @@ func (c *Core) CheckToken(ctx context.Context, req *logical.Request, unauth bool
 			}
 		}
 	}
+}
+
+func (c *Core) CheckToken(ctx context.Context, req *logical.Request, unauth bool) (*logical.Auth, *policy.ACL, *logical.TokenEntry, *identity.Entity, error) {
+	defer metrics.MeasureSince([]string{"core", "check_token"}, time.Now())
+
+	var acl *policy.ACL
+	var te *logical.TokenEntry
+	var entity *identity.Entity
+	var identityPolicies map[string][]string
+
+	// Even if unauth, if a token is provided, there's little reason not to
+	// gather as much info as possible for the audit log and to e.g. control
+	// trace mode for EGPs.
+	if !unauth || (unauth && (req.ClientToken != "" || req.HasInlineAuth)) {
+		var err error
+		acl, te, entity, identityPolicies, err = c.fetchACLTokenEntryAndEntity(ctx, req)
+		// In the unauth case we don't want to fail the command, since it's
+		// unauth, we just have no information to attach to the request, so
+		// ignore errors...this was best-effort anyways
+		if err != nil && !unauth {
+			if c.standby.Load() {
+				return nil, acl, te, entity, logical.ErrPerfStandbyPleaseForward
+			}
+			// The request fails here and is audited, not forwarded
+			stripAuthHeaders(req)
+			return nil, acl, te, entity, err
+		}
+	}
+
+	if entity != nil && entity.Disabled {
+		c.logger.Warn("permission denied as the entity on the token is disabled")
+		stripAuthHeaders(req)
+		return nil, acl, te, entity, logical.ErrPermissionDenied
+	}
+	if te != nil && te.EntityID != "" && entity == nil {
+		if c.standby.Load() {
+			return nil, acl, te, entity, logical.ErrPerfStandbyPleaseForward
+		}
+		c.logger.Warn("permission denied as the entity on the token is invalid")
+		stripAuthHeaders(req)
+		return nil, acl, te, entity, logical.ErrPermissionDenied
+	}
+
+	// Check if this is a root protected path
+	rootPath := c.router.RootPath(ctx, req.Path)
+
+	if rootPath && unauth {
+		stripAuthHeaders(req)
+		return nil, nil, nil, nil, errors.New("cannot access root path in unauthenticated request")
+	}
+
+	// At this point we won't be forwarding a raw request; we should delete
+	// authorization headers as appropriate
+	stripAuthHeaders(req)
 
 	// When we receive a write of either type, rather than require clients to
 	// PUT/POST and trust the operation, we ask the backend to give us the real
